@@ -182,16 +182,24 @@ def render(spec):
 
     # condition functions, error classes ("adef" style: conditions and captures are coroutine functions that suspend once
     # before they log; legal on async callables only)
-    ADEF = "async " if spec["style"] == "adef" else ""
-    ATICK = "    await Tick()\n" if spec["style"] == "adef" else ""
+    # "amix" style: every other condition / capture (the even ones of its role and level, i.e. the nearest one first) is a
+    # coroutine function, the others are plain functions
+    def _co(name):
+        return spec["style"] == "adef" or (spec["style"] == "amix" and int(name.rsplit("_", 1)[-1]) % 2 == 0)
+
+    def ADEF_(name):
+        return "async " if _co(name) else ""
+
+    def ATICK_(name):
+        return "    await Tick()\n" if _co(name) else ""
     for li in range(nlev):
         pres, posts, snaps, invs = cond_names(spec, li)
         for name in pres + posts + invs:
             w("class E_{0}({1}): pass\nEI_{0} = E_{0}('inst')\n".format(name, "BaseException" if spec.get("err_base") else "Exception"))
         for name in pres:
             w("def EF_{0}({1}):\n    LOG.append(('errfac', '{0}', _same({1})))\n    return E_{0}('fac')\n".format(name, A))
-            if spec["style"] in ("def", "adef"):
-                w("{2}def {0}({1}):\n{3}    LOG.append(('pre', '{0}', _same({1})))\n    return _truth('{0}')\n".format(name, A, ADEF, ATICK))
+            if spec["style"] in ("def", "adef", "amix"):
+                w("{2}def {0}({1}):\n{3}    LOG.append(('pre', '{0}', _same({1})))\n    return _truth('{0}')\n".format(name, A, ADEF_(name), ATICK_(name)))
         for name in posts:
             takes_old = any_snap_upto[li] and spec["post_old"] == "all"
             params = "result, {}".format(A) + (", OLD" if takes_old else "")
@@ -199,10 +207,10 @@ def render(spec):
             oldv = "OLD" if takes_old else "None"
             eoldv = "OLD" if any_snap_upto[li] else "None"
             w("def EF_{0}({1}):\n    LOG.append(('errfac', '{0}', _same({2}), _old({3})))\n    return E_{0}('fac')\n".format(name, eparams, A, eoldv))
-            if spec["style"] in ("def", "adef"):
+            if spec["style"] in ("def", "adef", "amix"):
                 w(
                     "{4}def {0}({1}):\n{5}    LOG.append(('post', '{0}', result is CUR.get('R'), _same({2}), _content({2}), _old({3})))\n"
-                    "    return _truth('{0}')\n".format(name, params, A, oldv, ADEF, ATICK)
+                    "    return _truth('{0}')\n".format(name, params, A, oldv, ADEF_(name), ATICK_(name))
                 )
         for name in snaps:
             ret = A if spec["cap_alias"] else "list(_content({}))".format(A)
@@ -210,21 +218,21 @@ def render(spec):
                 ret = "self.data"
             w(
                 "{3}def {0}({1}):\n{4}    LOG.append(('cap', '{0}', _same({1}), _content({1})))\n"
-                "    CAPRET['{0}'] = {2}\n    return CAPRET['{0}']\n".format(name, A, ret, ADEF, ATICK)
+                "    CAPRET['{0}'] = {2}\n    return CAPRET['{0}']\n".format(name, A, ret, ADEF_(name), ATICK_(name))
             )
         for name in invs:
             w("def EF_{0}(self):\n    LOG.append(('errfac', '{0}', True))\n    return E_{0}('fac')\n".format(name))
-            if spec["style"] in ("def", "adef"):
+            if spec["style"] in ("def", "adef", "amix"):
                 w("def {0}(self):\n    LOG.append(('inv', '{0}'))\n    return _truth('{0}')\n".format(name))
 
     def deco_lines(li, indent):
         pres, posts, snaps, _ = cond_names(spec, li)
         req, ens, snp = [], [], []
         for name in pres:
-            c = name if spec["style"] in ("def", "adef") else "lambda {0}: lam('pre', '{1}', {0})".format(A, name)
+            c = name if spec["style"] in ("def", "adef", "amix") else "lambda {0}: lam('pre', '{1}', {0})".format(A, name)
             req.append("@icontract.require({}{})".format(c, _err_arg(spec, name)))
         for name in posts:
-            if spec["style"] in ("def", "adef"):
+            if spec["style"] in ("def", "adef", "amix"):
                 c = name
             elif any_snap_upto[li] and spec["post_old"] == "all":
                 c = "lambda result, {0}, OLD: lam('post', '{1}', {0}, result, OLD)".format(A, name)
@@ -265,7 +273,7 @@ def render(spec):
         lv = spec["levels"][li]
         _, _, _, invs = cond_names(spec, li)
         for name in reversed(invs):
-            c = name if spec["style"] in ("def", "adef") else "lambda self: lam('inv', '{}', self)".format(name)
+            c = name if spec["style"] in ("def", "adef", "amix") else "lambda self: lam('inv', '{}', self)".format(name)
             on = lv["inv_on"][int(name.split("_")[1])]
             chk = {"C": "", "S": ", check_on=icontract.InvariantCheckEvent.SETATTR", "A": ", check_on=icontract.InvariantCheckEvent.ALL"}[on]
             w("@icontract.invariant({}{}{})\n".format(c, _err_arg(spec, name), chk))
